@@ -26,9 +26,9 @@ __CPROVER_requires(__CPROVER_is_fresh(table, TMAX * sizeof(int)) && tn <= TMAX)
 __CPROVER_assigns()
 __CPROVER_ensures(RET == ((rel >= 0 && (size_t)rel < tn) ? table[rel] : 0));
 
-static int tbl(const int* cfg, long rel) { return (rel >= 0 && rel < cfg[1]) ? cfg[2 + rel] : 0; }
+int spec_tbl(const int* cfg, long rel) { return (rel >= 0 && rel < cfg[1]) ? cfg[2 + rel] : 0; }
 /* sign of the protocol's verdict for chains a, b */
-static int spec_cmp(int nA, int nB, const int* pa, const int* pb, const int* cfg) {
+int spec_cmp(int nA, int nB, const int* pa, const int* pb, const int* cfg) {
   if (nA == 0 && nB == 0) return 0;
   if (nA == 0) return -1;
   if (nB == 0) return 1;
@@ -47,34 +47,42 @@ static int spec_cmp(int nA, int nB, const int* pa, const int* pb, const int* cfg
     if (hasB && b - prevB > delay) { outB = 1; hasB = 0; }
     prevB = b;
     if (!hasA && !hasB) continue;
-    if (!hasA) { sb += tbl(cfg, 0); outA = 1; continue; }   /* a missing keystone: the other chain scores best, this one is out */
-    if (!hasB) { sa += tbl(cfg, 0); outB = 1; continue; }
+    if (!hasA) { sb += spec_tbl(cfg, 0); outA = 1; continue; }   /* a missing keystone: the other chain scores best, this one is out */
+    if (!hasB) { sa += spec_tbl(cfg, 0); outB = 1; continue; }
     long m = a < b ? a : b;
-    sa += tbl(cfg, a - m);
-    sb += tbl(cfg, b - m);
+    sa += spec_tbl(cfg, a - m);
+    sb += spec_tbl(cfg, b - m);
     if (a - b > delay) outA = 1;    /* way behind the other chain */
     if (b - a > delay) outB = 1;
   }
   return sa > sb ? 1 : sa < sb ? -1 : 0;
 }
 #define SIGN(x) ((x) > 0 ? 1 : (x) < 0 ? -1 : 0)
-#define PUBOK(p) (((p) >= 0 && (p) <= 1000000) || (p) == NOE)
+#define PUBOK(p) (((p) >= 0 && (p) <= 65535) || (p) == NOE)
 int w_cmp_c(int first, int nA, int nB, const int* pubsA, const int* pubsB, const int* cfg, int swap_too, int* ba)
 __CPROVER_requires(__CPROVER_is_fresh(pubsA, KMAX * sizeof(int)) && __CPROVER_is_fresh(pubsB, KMAX * sizeof(int)) &&
                    __CPROVER_is_fresh(cfg, (2 + TMAX) * sizeof(int)) && __CPROVER_is_fresh(ba, sizeof(int)))
-__CPROVER_requires(first >= 0 && first <= 1000000 && first % KI == 0 && nA >= 0 && nA <= KMAX && nB >= 0 && nB <= KMAX)
+__CPROVER_requires(first >= 0 && first <= 65535 * KI && first % KI == 0 && nA >= 0 && nA <= KMAX && nB >= 0 && nB <= KMAX)
 /* configuration well-formedness: non-empty table of non-negative weights, non-negative finality delay */
-__CPROVER_requires(cfg[0] >= 0 && cfg[0] <= 100000 && cfg[1] >= 1 && cfg[1] <= TMAX)
+__CPROVER_requires(cfg[0] >= 0 && cfg[0] <= 65535 && cfg[1] >= 1 && cfg[1] <= TMAX)
 __CPROVER_requires(cfg[2] >= 0 && cfg[2] <= 32768 && cfg[3] >= 0 && cfg[3] <= 32768 && cfg[4] >= 0 && cfg[4] <= 32768 && cfg[5] >= 0 && cfg[5] <= 32768)
-__CPROVER_requires(PUBOK(pubsA[0]) && PUBOK(pubsA[1]) && PUBOK(pubsA[2]) && PUBOK(pubsB[0]) && PUBOK(pubsB[1]) && PUBOK(pubsB[2]))
+__CPROVER_requires(PUBOK(pubsA[0]) && PUBOK(pubsA[1]) && PUBOK(pubsB[0]) && PUBOK(pubsB[1]))
+#if KMAX > 2
+__CPROVER_requires(PUBOK(pubsA[2]) && PUBOK(pubsB[2]))
+#endif
 #if KMAX > 3
 __CPROVER_requires(PUBOK(pubsA[3]) && PUBOK(pubsB[3]))
 #endif
 __CPROVER_assigns(*ba)
+#if CMP_MODE == 1
+__CPROVER_requires(swap_too == 0)
 /* the verdict's sign is the protocol's */
 __CPROVER_ensures(SIGN(RET) == spec_cmp(nA, nB, pubsA, pubsB, cfg))
+#else
+__CPROVER_requires(swap_too != 0)
 /* antisymmetric when the roles are swapped */
-__CPROVER_ensures(swap_too != 0 ==> SIGN(*ba) == -SIGN(RET))
+__CPROVER_ensures(SIGN(*ba) == -SIGN(RET))
+#endif
 /* 0 when neither chain crosses a keystone boundary; negative iff only the first is empty */
 __CPROVER_ensures((nA == 0 && nB == 0) ==> RET == 0)
 __CPROVER_ensures((nA == 0 && nB > 0) ==> RET < 0);
